@@ -34,7 +34,7 @@ Definition filter_for (F : filt) (key : string) : list string :=
   else [].
 
 (* the loop of filterWords over line[1:] : true = some non-empty filter value differs *)
-Fixpoint mismatch (ws : list string) (fs : list string) : bool :=
+Fixpoint mismatch (ws : list string) (fs : list string) {struct fs} : bool :=
   match fs with
   | [] => false
   | v :: fs' =>
@@ -202,6 +202,28 @@ Fixpoint matchb (fs : list string) (r : rule) : bool :=
     | w :: r' => field_match v w && matchb fs' r'
     end
   end.
+
+(* the same without TrimSpace: a non-empty value must equal the field *)
+Fixpoint match_plain (fs : list string) (r : rule) : bool :=
+  match fs with
+  | [] => true
+  | v :: fs' =>
+    match r with
+    | [] => false
+    | w :: r' => (String.eqb v "" || String.eqb v w) && match_plain fs' r'
+    end
+  end.
+
+(* no filter value has outer blanks *)
+Definition trimmed_values (fs : list string) : bool := forallb (fun v => String.eqb (trim v) v) fs.
+Definition filter_trimmed (F : filt) : bool :=
+  trimmed_values (f_p F) && trimmed_values (f_g F) && trimmed_values (f_g1 F)
+  && trimmed_values (f_g2 F) && trimmed_values (f_g3 F) && trimmed_values (f_g4 F)
+  && trimmed_values (f_g5 F).
+
+(* "the filter is not longer than the arity", per definition of the model (F25 outside) *)
+Definition within_arity (F : filt) (st : store) : Prop :=
+  forall key e, find_entry key st = Some e -> List.length (filter_for F key) <= e_ntok e.
 
 (* the filter argument as a predicate on the rules of type key *)
 Definition spec_match (F : option filt) (key : string) (r : rule) : bool :=
